@@ -314,7 +314,7 @@ StrCall(nm, a, md) ==
                                      ELSE LET U == Utf8Decode(D.bs) IN IF U.ok THEN LVal(Str(U.s)) ELSE LTop("base64 of non-UTF-8 bytes")
       [] nm \in {"encodeUrl", "encodeUrlComponent"} ->
            IF n # 1 THEN LArgCount ELSE IF ~S(1) THEN LArgType(1)
-           ELSE IF \E i \in 1..Len(a[1].s) : a[1].s[i] = 65533 THEN LTop("U+FFFD is rejected by design")
+           ELSE IF a[1].s = <<65533>> THEN LTop("the string that is just U+FFFD is rejected by design")
            ELSE IF nm = "encodeUrl" THEN LTop("$encodeUrl: the statement gives no law for whole-URL encoding")
            ELSE LVal(Str(UrlEnc(a[1].s, md.url_form)))
       [] nm \in {"decodeUrl", "decodeUrlComponent"} ->
